@@ -1,7 +1,7 @@
 """C01 End-to-end message fidelity - the structural necessary conditions only."""
 import re
 from engine import flow as fl, ru, paths as pa, expr, tables
-from rules import C02 as _c02, C03 as _c03, C12 as _c12, C14 as _c14, C17 as _c17
+from rules import shared, C02 as _c02, C03 as _c03, C10 as _c10, C12 as _c12, C14 as _c14, C17 as _c17
 
 EXPLANATION = (
     "C01 as stated (delivered message == submitted message for every message, chunking and schedule) quantifies over runtime "
@@ -13,14 +13,14 @@ EXPLANATION = (
     "build the http types from exactly those slots and the field map unchanged; (s) segmentation - the C02 rules (exact "
     "consumption, truncation, memo, end of stream) because a message survives re-chunking only if frame boundaries do; (q) "
     "sequence - the C03 body/end-of-body/trailers tables and the split rule (one clean end of message, trailers kept, also across split()); (v) field validation and "
-    "sending order - C12-a/C12-d; (w) writer - C14-a/b/e (frame kept whole, declared length = payload, header/payload cursor "
+    "sending order - C12-a/C12-d, and the size accounting/limit comparisons C10-a/C10-b that sender and receiver must share; (w) writer - C14-a/b/e (frame kept whole, declared length = payload, header/payload cursor "
     "under partial writes); (t) transport adapter - C17-a/b (every accepted buffer written completely, in order, kept across "
     "Pending). Sub-rules of other properties run through a filtering proxy and are reported under C01-s/q/v/w/t with their "
     "original rule id in the title. A violation of any of them breaks fidelity for some message or schedule; their absence "
     "does not prove fidelity.")
 EXTRA_CONFIGS = ["h3-plain"]
 RULES = ("C01-f field mapping: pseudo-header writer/reader tables agree, append not insert, iterator, into_*_parts flows (A11/A4/A3); "
-         "C01-s = C02-a..g; C01-q = C03-body, C03-eob, C03-trl, C03-split; C01-v = C12-a, C12-d; C01-w = C14-a, C14-b, C14-e; C01-t = C17-a, C17-b "
+         "C01-s = C02-a..g; C01-q = C03-body, C03-eob, C03-trl, C03-split; C01-v = C12-a, C12-d, C10-a, C10-b; C01-w = C14-a, C14-b, C14-e; C01-t = C17-a, C17-b "
          "(re-used through a filtering proxy)")
 
 META = {
@@ -34,41 +34,7 @@ H = "h3::proto::headers::"
 SLOTS = {":method": "method", ":scheme": "scheme", ":authority": "authority", ":path": "path", ":status": "status", ":protocol": "protocol"}
 
 
-class Proxy:
-    """Forwards the obligations of another property's module whose rule id is selected, under this property's rule id."""
-
-    def __init__(self, ctx, select, as_rule):
-        self._ctx, self._sel, self._as = ctx, select, as_rule
-
-    def __getattr__(self, name):
-        return getattr(self._ctx, name)
-
-    def _on(self, rule):
-        return any(rule == s or rule.startswith(s) for s in self._sel)
-
-    def ok(self, rule, key, detail="", loc=None):
-        if self._on(rule):
-            self._ctx.ok(self._as, "[%s] %s" % (rule, key), detail, loc)
-
-    def violation(self, rule, fn, construct, msg, loc=None, path=None):
-        if self._on(rule):
-            self._ctx.violation(self._as, fn, "[%s] %s" % (rule, construct), msg, loc, path)
-
-    def check(self, cond, rule, fn, construct, msg, detail="", loc=None, path=None):
-        if self._on(rule):
-            self._ctx.check(cond, self._as, fn, "[%s] %s" % (rule, construct), msg, detail, loc, path)
-
-    def missing(self, rule, what):
-        if self._on(rule):
-            self._ctx.missing(self._as, what)
-
-    def unrecognised(self, rule, fn, what, msg):
-        if self._on(rule):
-            self._ctx.unrecognised(self._as, fn, "[%s] %s" % (rule, what), msg)
-
-    def floor(self, rule, what, n, least):
-        if self._on(rule):
-            self._ctx.floor(self._as, "[%s] %s" % (rule, what), n, least)
+Proxy = shared.Proxy
 
 
 def run(ctx):
@@ -110,10 +76,8 @@ def run(ctx):
     fp = ru.need(ctx, "C01-f", H + "Field::parse")
     name2variant = {}
     if fp:
-        for m in tables.match_tables(prog, fp.key):
-            for pat, guard, body in m:
-                if isinstance(pat, bytes) and body[0] == "call" and not guard:
-                    name2variant[pat.decode()] = body[1].rsplit("::", 1)[-1]
+        got_, _w, _ok = _c12.pseudo_name_table(ctx, "C01-f", fp)
+        name2variant = {k.decode(): v for k, v in got_.items()}
     tf = ru.need(ctx, "C01-f", "<%sHeader as core::convert::TryFrom<alloc::vec::Vec<h3::qpack::field::HeaderField>>>::try_from" % H)
     variant2slot = {}
     if tf:
@@ -123,17 +87,18 @@ def run(ctx):
         for h in heads:
             for p in ex.paths(start=h, stop_at=heads):
                 labs = [t[2] for t in p.tests if t[3][0] == "discr" and "parse@" in t[1]]
-                var = labs[-1] if labs else None
-                if p.end != "stop" or var in (None, "Continue", "Break", "Some", "None"):
+                fv_ = [l for l in labs if l in ("Method", "Scheme", "Authority", "Path", "Status", "Protocol", "Header")]
+                var = fv_[-1] if fv_ else None
+                if p.end != "stop" or var is None:
                     continue
                 if var == "Header":
                     n_hdr += 1
-                    ap = p.calls("http::header::map::HeaderMap<T>::append", "HeaderMap::append", "::append")
+                    ap = p.calls("http::header::map::HeaderMap<T>::append", "HeaderMap::append", "::append", "http::header::map::HeaderMap<T>::try_append", "::try_append")
                     ins = p.calls("http::header::map::HeaderMap<T>::insert", "::insert")
                     ok = len(ap) == 1 and not ins and all("<Header>.0" in pa.vfmt(a) and "parse@" in pa.vfmt(a) for a in ap[0][3][1:3]) and \
                         pa.vfmt(ap[0][3][1]).endswith(".0") and pa.vfmt(ap[0][3][2]).endswith(".1")
                     ctx.check(ok, "C01-f", tf.key, "received regular field is appended with its own (name, value)",
-                              "a regular field is stored through %s(%s): `insert` (or anything but one `append` of the parsed pair) drops or reorders "
+                              "a regular field is stored through %s(%s): `insert` (or anything but one `append` / `try_append` of the parsed pair) drops or reorders "
                               "the values of a repeated name" % ([e[2].cname for e in ap + ins], [pa.vfmt(a)[-30:] for e in ap + ins for a in e[3][1:3]]), "", None, p.describe())
                     continue
                 st = [(pa.vfmt(e[4]), pa.vfmt(e[3])) for e in p.stores() if not pa.vfmt(e[4]).endswith(".len")]
@@ -188,5 +153,6 @@ def run(ctx):
     _c02.run(Proxy(ctx, ("C02-",), "C01-s"))
     _c03.run(Proxy(ctx, ("C03-body", "C03-eob", "C03-trl", "C03-split"), "C01-q"))
     _c12.run(Proxy(ctx, ("C12-a", "C12-d"), "C01-v"))
+    _c10.run(Proxy(ctx, ("C10-a", "C10-b"), "C01-v"))       # sender and receiver account for and compare the section size alike
     _c14.run(Proxy(ctx, ("C14-a", "C14-b", "C14-e"), "C01-w"))
     _c17.run(Proxy(ctx, ("C17-a", "C17-b"), "C01-t"))
